@@ -158,7 +158,7 @@ def parse_targets(t):
 def parse(text, origin='crate'):
     fns = {}
     text = text.split('// MIR FOR CTFE')[0] if origin == 'crate' else text
-    for m in re.finditer(r'^(fn|const|static) (.+?)\n(.*?)^\}\n', text, re.S | re.M):
+    for m in re.finditer(r'^(fn|const|static) ([^\n]*\{)\n(.*?)^\}\n', text, re.S | re.M):
         kind = m.group(1); head = m.group(2); body = m.group(3)
         if kind == 'static': continue
         if kind == 'const':
